@@ -29,7 +29,10 @@ struct Line {
 fn render(lines: &[Line]) -> Vec<u8> {
     let mut v = Vec::with_capacity(lines.len() * 3);
     for l in lines {
-        v.push(l.c);
+        // letter 0 = empty line
+        if l.c != 0 {
+            v.push(l.c);
+        }
         match l.eol {
             Eol::Lf => v.push(b'\n'),
             Eol::CrLf => v.extend_from_slice(b"\r\n"),
@@ -110,8 +113,14 @@ fn sides(base: &[Line], alpha: &[u8], dom: Eol, flips: bool, max: usize) -> Vec<
         }
         level = next;
     }
-    // distinct line structures can render to the same bytes only if equal, so no further dedup needed
-    let mut v: Vec<(usize, Vec<u8>)> = seen.into_iter().map(|(l, d)| (d, render(&l))).collect();
+    // an empty line without terminator renders to nothing, so distinct structures can render to the same bytes:
+    // keep each text once, with its smallest distance
+    let mut by_text: BTreeMap<Vec<u8>, usize> = BTreeMap::new();
+    for (l, d) in seen {
+        let e = by_text.entry(render(&l)).or_insert(d);
+        *e = (*e).min(d);
+    }
+    let mut v: Vec<(usize, Vec<u8>)> = by_text.into_iter().map(|(t, d)| (d, t)).collect();
     v.sort();
     v
 }
@@ -128,6 +137,9 @@ fn bases(letters: &[u8], max_len: usize, mixed: bool, mut f: impl FnMut(&[Line],
             for final_nl in [true, false] {
                 let mut v: Vec<Line> = cs.iter().map(|&c| Line { c, eol: dom }).collect();
                 if !final_nl {
+                    if cs[cs.len() - 1] == 0 {
+                        continue; // an unterminated empty last line is no line: same text as the shorter base
+                    }
                     v.last_mut().unwrap().eol = Eol::None;
                 }
                 f(&v, dom);
@@ -195,7 +207,8 @@ fn check_triple(base: &[u8], ours: &[u8], theirs: &[u8], cfgs: &[Cfg], merges: &
     let mut input: InternedInput<&[u8]> = InternedInput::default();
     let mut sum = Summary::default();
     let show = |cfg: &Cfg, out: &[u8], res: Resolution| format!("[{}] -> {:?} \"{}\"", cfg.describe(), res, escape(out));
-    for cfg in cfgs {
+    let mut joined: Option<String> = None;
+    'cfg: for cfg in cfgs {
         input.clear();
         let labels = if cfg.labels {
             Labels { ancestor: Some("B".into()), current: Some("O".into()), other: Some("T".into()) }
@@ -278,13 +291,16 @@ fn check_triple(base: &[u8], ours: &[u8], theirs: &[u8], cfgs: &[Cfg], merges: &
                 let unterminated = [base, ours, theirs].into_iter().filter_map(|t| lines_of(t).last()).filter(|l| !l.ends_with(b"\n"));
                 for u in unterminated {
                     if l.len() > u.len() && l.starts_with(u) && allowed.contains(&l[u.len()..]) {
-                        return Err(format!(
+                        // keep evaluating the remaining configurations: this shape is a known finding and must not
+                        // hide a different violation of the same triple
+                        joined.get_or_insert(format!(
                             "{name}-joined-line: line \"{}\" glues the unterminated line \"{}\" to the following line (diff3 rendering \"{}\") {}",
                             escape(l),
                             escape(u),
                             escape(&reference),
                             show(cfg, &out, res)
                         ));
+                        continue 'cfg;
                     }
                 }
                 return Err(format!(
@@ -309,7 +325,10 @@ fn check_triple(base: &[u8], ours: &[u8], theirs: &[u8], cfgs: &[Cfg], merges: &
             }
         }
     }
-    Ok(sum)
+    match joined {
+        Some(m) => Err(m),
+        None => Ok(sum),
+    }
 }
 
 #[derive(Serialize, Deserialize, Hash, Clone, Debug)]
@@ -329,16 +348,16 @@ pub fn run(run: &'static Run) {
     use imara_diff::Algorithm::{Histogram, Myers};
     let quick = run.quick();
     run.rule(
-        "texts = sequences of one-letter lines, each with terminator LF | CRLF | none (last line only). \
-         sub `triples`: base = every line sequence over {a,b,c} of length 0..=3 in formats {all LF, all CRLF} x {final newline, none} \
+        "texts = sequences of lines whose content is one letter or EMPTY, each with terminator LF | CRLF | none (last line only, never an empty one). \
+         sub `triples`: base = every line sequence over {a, b, empty} of length 0..=3 in formats {all LF, all CRLF} x {final newline, none} \
          (+ thorough: first line terminated differently from the rest); ours = every text within 2 edits of the base, theirs likewise, \
-         edit = insert a line (ours: x|z|a, theirs: y|z|a) at any position, delete a line, replace a line's letter, toggle the final \
-         newline, flip one line's terminator LF<->CRLF; each side at most 2 edits; total edits (ours+theirs) <= 4 for base length 0..=1, \
-         quick: <= 3 for length 2 and <= 2 for length 3; thorough: <= 4 for length 2 and <= 3 for length 3. \
+         edit = insert a line (ours: x|z|a|empty, theirs: y|z|a|empty) at any position, delete a line, replace a line's content, toggle the final \
+         newline, flip one line's terminator LF<->CRLF; total edits (ours+theirs): all pairs (<= 4) for base length 0..=2; \
+         for length 3 quick: <= 2, thorough: <= 3. \
          Every triple is merged under styles {merge,diff3,zdiff3} x marker sizes {1,7,20} (labels on for odd sizes, plus size 7 without \
          labels) and resolutions {ours,theirs,union}, diff algorithm Myers (thorough: + Histogram). \
-         sub `identities`: base length 0..=3 (thorough 0..=4), side within 2 edits (letters x|a); merges (base,base,side), (side,base,base), \
-         (side,base,side) under every marker size 1..=20. non-trivial = at least one side differs from the base.",
+         sub `identities`: base length 0..=3 (thorough 0..=4) over {a, b, empty}, side within 2 edits (contents x|a|empty); merges (base,base,side), \
+         (side,base,base), (side,base,side) under every marker size 1..=20. non-trivial = at least one side differs from the base.",
     );
     run.assume("a panic (incl. debug assertions / overflow checks) is caught per case; a merge running > 5 s is reported as hang (cases take microseconds)");
     run.assume("marker detection relies on the alphabet containing none of < = > |; labels are the single letters B O T");
@@ -357,17 +376,16 @@ pub fn run(run: &'static Run) {
         "triples",
         Opts::default().chunk(1 << 14).watchdog(5.0),
         |emit| {
-            bases(b"abc", 3, !quick, |base, dom| {
+            bases(b"ab\0", 3, !quick, |base, dom| {
                 // bound on the total number of edits (ours + theirs); each side has at most 2
                 let max_total = match (quick, base.len()) {
                     (_, 0..=1) => 4,
-                    (true, 2) => 3,
+                    (_, 2) => 4,
                     (true, _) => 2,
-                    (false, 2) => 4,
                     (false, _) => 3,
                 };
-                let o = sides(base, b"xza", dom, true, 2);
-                let t = sides(base, b"yza", dom, true, 2);
+                let o = sides(base, b"xza\0", dom, true, 2);
+                let t = sides(base, b"yza\0", dom, true, 2);
                 let b = B(render(base));
                 let mut pairs: Vec<(usize, usize, usize)> = Vec::with_capacity(o.len() * t.len());
                 for (i, (d1, _)) in o.iter().enumerate() {
@@ -429,9 +447,9 @@ pub fn run(run: &'static Run) {
         "identities",
         Opts::default().chunk(1 << 12).watchdog(5.0),
         |emit| {
-            bases(b"abc", run.pick(3, 4), true, |base, dom| {
+            bases(b"ab\0", run.pick(3, 4), true, |base, dom| {
                 let b = B(render(base));
-                for (_, s) in sides(base, b"xa", dom, true, 2) {
+                for (_, s) in sides(base, b"xa\0", dom, true, 2) {
                     emit(Pair { base: b.clone(), side: B(s) });
                 }
             });
